@@ -167,31 +167,54 @@ def rule_patterns(ctx, mod, model):
         for label, tonic, L, root_pitch in tonic_domain(cname):
             for direction in ("ascending", "descending"):
                 R = "R-C05-A" if direction == "ascending" else "R-C05-D"
-                try:
-                    paths = eval_method(ctx, cname, tonic, direction, Lin.of(n), model=model)
-                except (CannotDecide, nd.Shape) as e:
-                    raise AnalysisError("%s(%s).%s(): %s" % (cname, label, direction, e))
                 if direction == "ascending":
                     want = want_formula(cname, pattern)
                 else:
                     want = want_formula(cname, DESC_PATTERNS.get(cname, pattern), descending=True)
-                ok, why = bool(paths), "no outcome"
-                for p in paths:
-                    if p.kind != "return":
-                        ok, why = False, "%s %r" % (p.kind, p.value)
-                        break
-                    rl = split_octaves(p.interp, p.value, n)
-                    if isinstance(rl, str):
-                        ok, why = False, rl
-                        break
-                    got = formula_of(p.interp, rl[0], L, root_pitch)
-                    last = formula_of(p.interp, [rl[1]], L, root_pitch)
-                    if not match(got, want):
-                        ok, why = False, "one octave is (letters up, semitones) %s, the defining pattern %s gives %s" % (
-                            got, pattern if direction == "ascending" else "reversed", want)
-                        break
-                    if last != [(0, 0)]:
-                        ok, why = False, "does not end on the tonic: %s" % (last,)
+                try:
+                    runs = [(None, eval_method(ctx, cname, tonic, direction, Lin.of(n), model=model))]
+                except (CannotDecide, nd.Shape) as e:
+                    # the method does more with the octave count than repeat one period: specialise the count
+                    ctx.note(R, "%s(%s).%s() is not <period> * octaves + [tonic] for a symbolic octave count (%s); specialised to 1, 2, 3 octaves"
+                             % (cname, label, direction, short(str(e), 90)))
+                    try:
+                        runs = [(k, eval_method(ctx, cname, tonic, direction, k, model=model)) for k in (1, 2, 3)]
+                    except (CannotDecide, nd.Shape) as e2:
+                        raise AnalysisError("%s(%s).%s(): %s" % (cname, label, direction, e2))
+                ok, why = True, ""
+                for k, paths in runs:
+                    if not paths:
+                        ok, why = False, "no outcome"
+                    for p in paths:
+                        if p.kind != "return":
+                            ok, why = False, "%s %r" % (p.kind, p.value)
+                            break
+                        if k is None:
+                            rl = split_octaves(p.interp, p.value, n)
+                        else:
+                            v = p.value.items if isinstance(p.value, AIter) else p.value
+                            if not isinstance(v, list) or len(v) != len(want) * k + 1:
+                                rl = "with octaves=%d the result has %s notes instead of %d * %d + 1" % (
+                                    k, len(v) if isinstance(v, list) else repr(v), k, len(want))
+                            else:
+                                fs = formula_of(p.interp, v, L, root_pitch)
+                                if any(fs[j] != fs[j % len(want)] for j in range(len(want) * k)):
+                                    rl = "with octaves=%d the octaves differ from each other: %s" % (k, fs)
+                                else:
+                                    rl = (v[:len(want)], v[-1])
+                        if isinstance(rl, str):
+                            ok, why = False, rl
+                            break
+                        got = formula_of(p.interp, rl[0], L, root_pitch)
+                        last = formula_of(p.interp, [rl[1]], L, root_pitch)
+                        if not match(got, want):
+                            ok, why = False, "one octave is (letters up, semitones) %s, the defining pattern %s gives %s" % (
+                                got, pattern if direction == "ascending" else "reversed", want)
+                            break
+                        if last != [(0, 0)]:
+                            ok, why = False, "does not end on the tonic: %s" % (last,)
+                            break
+                    if not ok:
                         break
                 ctx.check(ok, R, "%s[%s].%s" % (cname, label, direction), ci.module.where(ci.node),
                           "%s(%s, n).%s()" % (cname, label, direction), why)
